@@ -50,6 +50,15 @@ func (h *Handler) HandleOpenDir(ctx *Context, path string) bool {
 		return false
 	}
 
+	// it's crucial to send "true" for directory and "false" for file
+	if !info.IsDir() {
+		// not a directory (file, generated image): nothing to list there, so don't keep it as opened directory
+		if err := handle.Close(); err != nil {
+			log.WarnContext(ctx, "Close failed", logutil.ErrorAttr(err))
+		}
+		return false
+	}
+
 	if ctx.State.CwdHandle != nil {
 		if err := ctx.State.CwdHandle.Close(); err != nil {
 			log.WarnContext(ctx, "Close ctx.State.CwdHandle failed", logutil.ErrorAttr(err))
@@ -59,8 +68,7 @@ func (h *Handler) HandleOpenDir(ctx *Context, path string) bool {
 
 	ctx.State.CwdHandle = handle
 
-	// it's crucial to send "true" for directory and "false" for file
-	return info.IsDir()
+	return true
 }
 
 func (h *Handler) HandleReadDirEntry(ctx *Context) fs.FileInfo {
